@@ -262,12 +262,20 @@ func (s *LinearState) deleteDependencies(ctx *Context, id string) error {
 		return err
 	}
 
+	// The search is only as exact as the matcher: see dependsOn.
+	targets := make([]string, 0, len(srs.Found))
 	for _, sr := range srs.Found {
-		if id == sr.Id {
+		if dependsOn(s.Facts[sr.Id].M, id) {
+			targets = append(targets, sr.Id)
+		}
+	}
+
+	for _, target := range targets {
+		if id == target {
 			Log(WARN, ctx, "LinearState.deleteDependencies", "loop", id)
 			continue
 		}
-		if _, err := s.rem(ctx, sr.Id, false); nil != err {
+		if _, err := s.rem(ctx, target, false); nil != err {
 			return err
 		}
 	}
